@@ -68,6 +68,8 @@ type World struct {
 	constDecls   []string
 	constSet     map[string]bool
 	facts        []string
+	factBlock    []int // block index that generated the fact (-1 = global)
+	curBlock     int
 	typeIDs      map[string]int
 	heapSorts    map[string]string // heap name -> SMT sort
 	counter      int
@@ -86,7 +88,7 @@ func newWorld(p *Program, bv bool) *World {
 	w := &World{P: p, BV: bv,
 		sortDeclared: map[string]bool{}, structSorts: map[string]*Sort{}, structFields: map[string][]fieldInfo{},
 		funDeclared: map[string]bool{}, constSet: map[string]bool{}, typeIDs: map[string]int{},
-		heapSorts: map[string]string{}, assumptions: map[string]bool{}}
+		heapSorts: map[string]string{}, assumptions: map[string]bool{}, curBlock: -1}
 	w.sortDecls = append(w.sortDecls,
 		"(declare-datatypes ((Slice 0)) (((mk-slice (s-arr Int) (s-off Int) (s-len Int) (s-cap Int)))))",
 		"(declare-datatypes ((Iface 0)) (((mk-iface (i-dyn Int) (i-val Int)))))")
@@ -137,7 +139,10 @@ func (w *World) declFun(name string, args []string, ret string) {
 	w.funDecls = append(w.funDecls, fmt.Sprintf("(declare-fun %s (%s) %s)", q(name), strings.Join(args, " "), ret))
 }
 
-func (w *World) addFact(f string) { w.facts = append(w.facts, f) }
+func (w *World) addFact(f string) {
+	w.facts = append(w.facts, f)
+	w.factBlock = append(w.factBlock, w.curBlock)
+}
 
 func (w *World) intSort(bits int, signed bool, gt types.Type) *Sort {
 	if w.BV {
@@ -382,4 +387,49 @@ func sortedKeys(m map[string]bool) []string {
 	}
 	sort.Strings(ks)
 	return ks
+}
+
+// predeclareSpecTypes declares the struct sorts that spec files name in
+// "; uses-type pkg.Type" so the spec text can refer to them.
+func (w *World) predeclareSpecTypes() {
+	mode := "int"
+	if w.BV {
+		mode = "bv"
+	}
+	for _, sf := range w.P.Spec.Files {
+		if sf.Mode != "" && sf.Mode != mode {
+			continue
+		}
+		for _, ut := range sf.UsesType {
+			i := strings.LastIndex(ut, ".")
+			if i < 0 {
+				continue
+			}
+			pk, name := ut[:i], ut[i+1:]
+			for _, lp := range w.P.Pkgs {
+				var tp *types.Package
+				if lp.Types.Name() == pk {
+					tp = lp.Types
+				} else {
+					for _, im := range lp.Types.Imports() {
+						if im.Name() == pk {
+							tp = im
+						}
+					}
+				}
+				if tp == nil {
+					continue
+				}
+				if t := lookupType(tp, name); t != nil {
+					w.sortOf(t)
+					break
+				}
+			}
+		}
+	}
+}
+
+func (w *World) popFact() {
+	w.facts = w.facts[:len(w.facts)-1]
+	w.factBlock = w.factBlock[:len(w.factBlock)-1]
 }
